@@ -3,6 +3,7 @@ import Driver.C10
 import Driver.C14
 import Driver.C16
 import Driver.C07
+import Driver.C20
 open AITB
 
 def handleLine (line : String) : String :=
@@ -14,6 +15,7 @@ def handleLine (line : String) : String :=
   | "C14" :: rest => DrvC14.handle rest
   | "C16" :: rest => DrvC16.handle rest
   | "C07" :: rest => DrvC07.handle rest
+  | "C20" :: rest => DrvC20.handle rest
   | _ => "bad-op"
 
 partial def loop (h : IO.FS.Stream) (out : IO.FS.Stream) : IO Unit := do
